@@ -100,6 +100,15 @@ fn check(case: &Case) -> Option<String> {
             }
         }
     }
+    // has_quorum(S): S holds a majority of each half (S = the ids that voted yes)
+    {
+        let yes: std::collections::HashSet<u64> = case.votes.iter().filter(|(k, v)| **v && (case.incoming.contains(k) || case.outgoing.contains(k))).map(|(k, _)| *k).collect();
+        let mut hs: std::collections::HashSet<u64, std::hash::BuildHasherDefault<fxhash::FxHasher>> = Default::default(); for id in &yes { hs.insert(*id); }
+        let got_q = prs.has_quorum(&hs);
+        let maj = |set: &[u64]| set.is_empty() || 2 * set.iter().filter(|id| yes.contains(id)).count() > set.len();
+        let want_q = maj(&case.incoming) && maj(&case.outgoing);
+        if got_q != want_q { return Some(format!("has_quorum({:?}) = {} but the set holds a majority of each half: {} (incoming {:?}, outgoing {:?})", yes, got_q, want_q, case.incoming, case.outgoing)); }
+    }
     let (_, _, res) = prs.tally_votes();
     let res = format!("{:?}", res);
     let (i, o) = (vote_result(case, &case.incoming), vote_result(case, &case.outgoing));
